@@ -80,6 +80,40 @@ func main() {
 			fmt.Printf("%3d %-14s st=%-5s mod=%-5v action=%v handlers=%v\n", d.Index, n, d.ServerType, d.InModule, d.Action != nil, d.HandlerTys)
 		}
 		fmt.Println(len(dm.Order), "listed;", len(dm.ByName), "registered")
+	case "normdump":
+		// debugging aid: print the normalised source of every file the normaliser rewrote
+		res, err := normalizeRepo("linux", "amd64")
+		if err != nil {
+			fmt.Fprintln(os.Stderr, err)
+			os.Exit(2)
+		}
+		for _, l := range res.Inlined {
+			fmt.Println("INLINED", l)
+		}
+		for _, l := range res.Kept {
+			fmt.Println("KEPT", l)
+		}
+		for name, b := range res.Overlay {
+			if len(os.Args) > 2 && os.Args[2] == "-q" {
+				continue
+			}
+			fmt.Printf("=== %s\n%s\n", name, b)
+		}
+	case "knownfuncs":
+		// prints the declaration keys of every function in /repo (baseline list for normalize.go)
+		m, err := scanFuncDecls(repoDir)
+		if err != nil {
+			fmt.Fprintln(os.Stderr, err)
+			os.Exit(2)
+		}
+		var ks []string
+		for k := range m {
+			ks = append(ks, k)
+		}
+		sort.Strings(ks)
+		for _, k := range ks {
+			fmt.Println(k)
+		}
 	case "dump":
 		// debugging aid: print the SSA of a function
 		prog, err := LoadProgram("linux", "amd64", false)
@@ -97,6 +131,39 @@ func main() {
 				g.WriteTo(os.Stdout)
 			}
 		}
+	case "checkall":
+		// development aid: one load, every property's rules (linux/amd64, quick)
+		prog, err := LoadProgram("linux", "amd64", false)
+		if err != nil {
+			fmt.Printf("VIOLATION property=all replay=- LOAD-FAILED: %v\n", err)
+			os.Exit(1)
+		}
+		var ids []string
+		for id := range props {
+			ids = append(ids, id)
+		}
+		sort.Strings(ids)
+		code := 0
+		for _, id := range ids {
+			func() {
+				defer func() {
+					if e := recover(); e != nil {
+						fmt.Printf("VIOLATION property=%s replay=- CHECKER-PANIC %v\n%s\n", id, e, debug.Stack())
+						code = 1
+					}
+				}()
+				spec := props[id]
+				rep := NewReport(id, "quick", prog)
+				rep.Decided, rep.NotDecided, rep.Assumptions = spec.decided, spec.notDecided, spec.assume
+				rep.Platforms = []string{"linux/amd64"}
+				spec.run(rep, prog)
+				rep.dedupe()
+				if rep.Finish() != 0 {
+					code = 1
+				}
+			}()
+		}
+		os.Exit(code)
 	case "check":
 		if len(os.Args) < 3 {
 			usage()
